@@ -4,6 +4,7 @@ import (
 	"bytes"
 	"crypto/ed25519"
 	"crypto/rand"
+	"crypto/tls"
 	"encoding/json"
 	"fmt"
 	"io"
@@ -66,10 +67,7 @@ func c08Exec(r *vf.Run, k c08Case) []finding {
 	}
 	if k.PreRenders > 0 {
 		mat := hx.Mat()
-		kp := mat.SignRSA
-		if k.Spec.SMIME == 2 {
-			kp = mat.SignECDSA
-		}
+		kp := c08Key(k.Spec.SMIME)
 		inter := mat.InterCert
 		if !k.Spec.Inter {
 			inter = nil
@@ -95,10 +93,7 @@ func c08Exec(r *vf.Run, k c08Case) []finding {
 			return nil
 		}
 		mat := hx.Mat()
-		kp := mat.SignRSA
-		if k.Spec.SMIME == 2 {
-			kp = mat.SignECDSA
-		}
+		kp := c08Key(k.Spec.SMIME)
 		inter := mat.InterCert
 		if !k.Spec.Inter {
 			inter = nil
@@ -142,7 +137,7 @@ func c08Exec(r *vf.Run, k c08Case) []finding {
 		case k.Hist == 4 && ri == 1:
 			mat := hx.Mat()
 			kp := mat.SignECDSA
-			if k.Spec.SMIME == 2 {
+			if k.Spec.SMIME >= 2 {
 				kp = mat.SignRSA
 			}
 			inter := mat.InterCert
@@ -153,7 +148,11 @@ func c08Exec(r *vf.Run, k c08Case) []finding {
 				r.HarnessError("C08 SignWithKeypair (re-key): %v", err)
 				return nil
 			}
-			k.Spec.SMIME = 3 - k.Spec.SMIME
+			if k.Spec.SMIME >= 2 {
+				k.Spec.SMIME = 1
+			} else {
+				k.Spec.SMIME = 2
+			}
 		}
 		pan, pw := vf.Guard(func() {
 			if len(k.Switch) == 3 && k.Switch[1] > 0 {
@@ -227,9 +226,10 @@ func c08Exec(r *vf.Run, k c08Case) []finding {
 			r.Outcome("reached/verified/map-order-switch")
 		}
 		wantKey := "RSA"
-		if k.Spec.SMIME == 2 {
+		if k.Spec.SMIME >= 2 {
 			wantKey = "ECDSA"
 		}
+		r.Outcome(fmt.Sprintf("reached/verified/key-kind=%d", k.Spec.SMIME))
 		if res.KeyType != wantKey {
 			add("key-type/"+rn, "%s: signed with %s, want %s", rn, res.KeyType, wantKey)
 		}
@@ -268,6 +268,19 @@ func c08Exec(r *vf.Run, k c08Case) []finding {
 		}
 	}
 	return out
+}
+
+func c08Key(kind int) tls.Certificate {
+	mat := hx.Mat()
+	switch kind {
+	case 2:
+		return mat.SignECDSA
+	case 3:
+		return mat.SignP384
+	case 4:
+		return mat.SignP521
+	}
+	return mat.SignRSA
 }
 
 // canonical CRLF content (the property's precondition for signing)
@@ -388,6 +401,14 @@ func c08Specs(thorough bool) []c08Case {
 									}
 								}
 								if thorough || n%4 == 0 || mod == "none" {
+									// the larger ECDSA curves
+									for _, kk := range []int{3, 4} {
+										w := v
+										w.SMIME = kk
+										cs = append(cs, c08Case{Spec: w, Renders: 2, Ks: []int{0, 0}, Mod: mod})
+									}
+								}
+								if thorough || n%4 == 0 || mod == "none" {
 									// the other signing entry point, with certificate chains of 1..3 entries
 									for api := 1; api <= 4; api++ {
 										w := v
@@ -426,7 +447,7 @@ func init() {
 				r.Incomplete("runtime map-iteration seam not available: map order is sampled")
 			}
 			if r.Fork(r.Workers) {
-				r.Reached("reached/verified/hist=0/signapi=0", "reached/verified/hist=1/signapi=0", "reached/verified/hist=2/signapi=0", "reached/verified/hist=3/signapi=0", "reached/verified/hist=4/signapi=0", "reached/verified/hist=0/signapi=1", "reached/verified/hist=0/signapi=2", "reached/verified/hist=0/signapi=3", "reached/verified/hist=0/signapi=4", "reached/verified/signed-after-unsigned-renders", "reached/verified/after-failed-render", "reached/verified/map-order-switch")
+				r.Reached("reached/verified/hist=0/signapi=0", "reached/verified/hist=1/signapi=0", "reached/verified/hist=2/signapi=0", "reached/verified/hist=3/signapi=0", "reached/verified/hist=4/signapi=0", "reached/verified/hist=0/signapi=1", "reached/verified/hist=0/signapi=2", "reached/verified/hist=0/signapi=3", "reached/verified/hist=0/signapi=4", "reached/verified/signed-after-unsigned-renders", "reached/verified/after-failed-render", "reached/verified/map-order-switch", "reached/verified/key-kind=1", "reached/verified/key-kind=2", "reached/verified/key-kind=3", "reached/verified/key-kind=4")
 				return
 			}
 			cases := c08Specs(r.Thorough)
